@@ -186,11 +186,20 @@ def ecall_string_loop():
     M, F = "architecture_simulator.isa.riscv.rv32i_instructions", "ECALL.process_ecall"
     st, regs0 = havoc_state()
     a0 = sym_int("a0", 0, TOP - 1)
-    env = run_loop_part(M, F, 4, "init", {"arg": a0, "architectural_state": st})
+    # the loop's variables and inputs are addressed by role, not by spelling (a renamed local must not matter)
+    info = run_loop_part(M, F, 4, "names", {})
+    require("one input is read before the loop (a0)", len(info["__free_pre__"]) == 1)
+    require("the loop has two variables", len(info["__state__"]) == 2)
+    require("beside its variables the loop reads one object (the state)", len(info["__free_loop__"]) == 1)
+    arg_n, st_n = info["__free_pre__"][0], info["__free_loop__"][0]
+    env = run_loop_part(M, F, 4, "init", {arg_n: a0, st_n: st})
+    v0, v1 = info["__state__"][0], info["__state__"][1]
+    text_n, addr_n = (v0, v1) if isinstance(env[v0], str) else (v1, v0)
+    require("one variable starts as text, the other as a number", isinstance(env[text_n], str) and not isinstance(env[addr_n], str))
     ra, rp = S.print_string_init(a0)
     reach("init")
-    check("loop_starts_at_a0", env["address"] % TOP == ra % TOP)
-    check("loop_starts_with_nothing_printed", env["result"] == rp)
+    check("loop_starts_at_a0", env[addr_n] % TOP == ra % TOP)
+    check("loop_starts_with_nothing_printed", env[text_n] == rp)
 
     k = sym_int("iterations_so_far", 0)
     printed = sym_str("printed_so_far")
@@ -201,7 +210,7 @@ def ecall_string_loop():
         assume(byte_at(st.memory, address % TOP) < 128)
     faulted = False
     try:
-        env = run_loop_part(M, F, 4, "step", {"address": address, "result": printed, "architectural_state": st})
+        env = run_loop_part(M, F, 4, "step", {addr_n: address, text_n: printed, st_n: st})
     except MemoryAddressError:
         faulted = True
     check_same("an_iteration_only_reads", before, snapshot(st))
@@ -213,13 +222,13 @@ def ecall_string_loop():
     if env["__continue__"]:
         reach("more")
         check("continues_only_if_the_reference_continues", kind == "more")
-        check("next_address", env["address"] % TOP == addr2 % TOP)
-        check("text_so_far", env["result"] == printed2)
+        check("next_address", env[addr_n] % TOP == addr2 % TOP)
+        check("text_so_far", env[text_n] == printed2)
     else:
         reach("done")
         check("stops_only_if_the_reference_stops", kind == "done")
-        check("text_unchanged_on_stop", env["result"] == printed2)
-        out = run_loop_part(M, F, 4, "exit", {"address": env["address"], "result": env["result"], "architectural_state": st})
+        check("text_unchanged_on_stop", env[text_n] == printed2)
+        out = run_loop_part(M, F, 4, "exit", {addr_n: env[addr_n], text_n: env[text_n], st_n: st})
         check("returns_the_text_so_far", out["__return__"] == printed2)
 
 
